@@ -270,14 +270,15 @@ func claimed(out *Outcome, ti simrt.TaskInfo) bool {
 func panicSite(stack string) string {
 	lines := strings.Split(stack, "\n")
 	for _, l := range lines {
-		if strings.HasPrefix(l, "github.com/tychoish/fun") {
-			f := l
-			if i := strings.LastIndex(f, "("); i > 0 {
-				f = f[:i]
+		l = strings.TrimSpace(l)
+		if i := strings.Index(l, "github.com/tychoish/fun"); i >= 0 && !strings.HasPrefix(l, "/") {
+			f := l[i:]
+			if j := strings.LastIndex(f, "("); j > 0 {
+				f = f[:j]
 			}
 			f = strings.TrimPrefix(f, "github.com/tychoish/fun")
 			f = strings.TrimPrefix(f, "/")
-			// drop generic instantiation markers and closure numbering noise
+			f = strings.TrimPrefix(f, ".")
 			f = strings.ReplaceAll(f, "[...]", "")
 			return f
 		}
